@@ -24,7 +24,9 @@ EXPLANATION = (
     'parameter is given the caller\'s one; '
     'R-C16.5 the pending-mutation filter exempts from the changed-models test only model-less mutations and RenameModel (evaluated over the mutation class hierarchy).'
     ' '
-    'R-C16.2 now recognises the comprehension, filter(), guarded-append and removal-from-a-copy forms of the installable-models filter; R-C16.6 no for loop of the package grows or shrinks the container it iterates.')
+    'R-C16.2 now recognises the comprehension, filter(), guarded-append and removal-from-a-copy forms of the installable-models filter; R-C16.6 no for loop of the package grows or shrinks the container it iterates.'
+    ' '
+    'R-C16.7 queue_evolve_all_apps queues every installed app (no path around the queueing call inside the loop).')
 NOT_DECIDED = 'Behaviour under arbitrary routers and model splits.'
 TECHNIQUE = ('CFG must-pass-through with short-circuit expansion '
              '(is_mutable), control dependence of membership on the router '
@@ -555,7 +557,55 @@ def r6_no_mutation_of_iterated_container(ctx, rule_id='R-C16.6'):
                'iterates')
 
 
+def r7_every_installed_app_is_queued(ctx):
+    """Whether a database has work left for an app depends on the signature
+    *stored in that database* (a model the app no longer has there may still
+    have to be dropped), which only the task's own preparation looks at.
+    queue_evolve_all_apps() must therefore queue every installed app: inside
+    its loop the queueing call is not conditional on anything computed from
+    the current models / the target signature."""
+    ctx.rule('R-C16.7')
+    p = ctx.program
+    f = p.func('evolve.evolver', 'Evolver.queue_evolve_all_apps')
+    g = ctx.cfg(f)
+    n = 0
+    for node in g.nodes:
+        for c in node.calls():
+            if call_name(c) not in ('queue_evolve_app', 'queue_task'):
+                continue
+            n += 1
+            bad = []
+            for h in g.nodes:
+                if h.kind != 'for':
+                    continue
+                body = [s_ for s_, l in h.succ if l == 'T']
+                for b in body:
+                    if b is node:
+                        continue
+                    skip = g.path(b, h, avoid=[node], follow_exc=False)
+                    if skip is not None:
+                        tests = [x for x in skip
+                                 if x.kind in ('test', 'operand') and
+                                 x.ast is not None]
+                        bad.append(' / '.join(
+                            ' '.join(unparse(x.ast).split())
+                            for x in tests) or 'an unconditional jump')
+            if bad:
+                ctx.finding(f, c, 'queue_evolve_all_apps queues an app only '
+                            'when "%s": an app that is skipped is never '
+                            'compared with the signature stored in this '
+                            'database, so a model it still has to drop here '
+                            '(its last model routed to this database was '
+                            'deleted) stays, unrecorded' % '; '.join(
+                                sorted(set(bad))),
+                            key='app-queueing-conditional')
+            else:
+                ctx.ok(f, 'every installed app is queued', c)
+    ctx.floor('queueing calls in queue_evolve_all_apps', n, 1)
+
+
 def run(ctx):
+    r7_every_installed_app_is_queued(ctx)
     r6_no_mutation_of_iterated_container(ctx)
     r5_pending_filter_exemptions(ctx)
     r1_is_mutable_consults_router(ctx)
